@@ -272,6 +272,15 @@ def _gen(tier, rng):
         yield Case('trace a=%s offset=%d axis1=%d axis2=%d data=%s' % (fmt(s), off, x1, x2, m), 'h_c16_td', oracle=orc,
                    dom=not empty, model=not empty, nontrivial=(min(n1, n2) > 1), tags=tags)
 
+    # trace with the DEFAULT axis pair (trace(a), trace(a, offset)): the first two axes, whatever the rank
+    for s in [x for x in shapes(4, 3, min_rank=2) if len(x) >= 2][:: (3 if quick else 1)]:
+        for form, offs in (('d0', [0]), ('d1', [o for o in (-1, 0, 1) if -s[0] < o < s[1]])):
+            for off in offs:
+                m = mode()
+                base = 'trace a=%s offset=%d axis1=0 axis2=1 data=%s' % (fmt(s), off, m)
+                yield Case(base + ' form=' + form, 'h_c16_td', mreq=base, oracle=show(np.trace(mk(s, m, 0), off)), nontrivial=len(s) > 2,
+                           tags=['trace', 'default-axes', 'rank=%d' % len(s)])
+
     # ---- seeded random larger cases (extents up to 7, rank up to 4), every routine ----
     yield from random_cases(rng, 60 if quick else 600, cap if quick else 4000)
 
